@@ -83,6 +83,9 @@ inline MSSMNoFV_onshell mssm_gm2calc(int p) {
    model.set_Au(2, 2, p ? -800 : 0);
    model.set_Ad(2, 2, p ? -1200 : 0);
    model.set_Ae(2, 2, p ? -250 : 0);
+   // off-diagonal trilinears: accepted by the setters and documented as having no effect (no flavour violation);
+   // they multiply whatever stands in the off-diagonal entries of internal 3x3 temporaries
+   if (p) { model.set_Ae(0, 1, 35); model.set_Ae(1, 2, -60); model.set_Ae(2, 0, 15); model.set_Au(0, 2, 120); model.set_Au(2, 1, -80); model.set_Ad(1, 0, 45); model.set_Ad(1, 2, -30); }
    model.set_MA0(p ? 700 : 1500);
    model.set_scale(p ? 866 : 454.7);
    model.calculate_masses();
@@ -253,6 +256,9 @@ inline MSSMNoFV_onshell mssm_negsoft(bool force) {
 }
 inline void O11(int p, Res& r) {
    if (p == 0) {
+      // first, so that they see whatever earlier operations left behind
+      sub(r, "thdm-alphas-low", [&] { SM sm; sm.set_alpha_s_mz(0.04); THDM m(thdm_basis(1), sm); push(r, calculate_amu_2loop(m)); push(r, calculate_amu_2loop_fermionic(m)); push(r, calculate_uncertainty_amu_2loop(m)); });
+      sub(r, "mssm-alphas-low", [&] { MSSMNoFV_onshell m = mssm_gm2calc(0); m.set_g3(std::sqrt(4 * 3.141592653589793 * 0.04)); m.calculate_masses(); push(r, calculate_amu_2loop(m)); push(r, calculate_amu_1loop(m)); });
       sub(r, "negsoft-force", [&] { MSSMNoFV_onshell m = mssm_negsoft(true); push(r, calculate_amu_1loop(m)); push(r, calculate_amu_2loop(m));
                                    push(r, calculate_amu_1loop_non_tan_beta_resummed(m)); r.txt += m.get_problems().get_warnings() + "|" + m.get_problems().get_problems() + "|"; });
       sub(r, "mssm-tb1", [&] { MSSMNoFV_onshell m; const Eigen::Matrix<double,3,3> U = Eigen::Matrix<double,3,3>::Identity(); mssm_sm(m, 0); m.do_force_output(true);
@@ -260,6 +266,8 @@ inline void O11(int p, Res& r) {
                               m.set_md2(500. * 500 * U); m.set_mu2(500. * 500 * U); m.set_me2(500. * 500 * U); m.set_MA0(1500); m.set_scale(454.7); m.calculate_masses();
                               push(r, calculate_amu_1loop(m)); push(r, calculate_amu_2loop(m)); push(r, calculate_uncertainty_amu_2loop(m)); });
    } else {
+      // alpha_s(MZ) outside the range in which Lambda_QCD can be bracketed: documented fallback path of the running masses
+      sub(r, "thdm-alphas-high", [&] { SM sm; sm.set_alpha_s_mz(0.35); THDM m(thdm_basis(0), sm); push(r, calculate_amu_2loop(m)); push(r, calculate_amu_2loop_fermionic(m)); push(r, calculate_uncertainty_amu_2loop(m)); });
       sub(r, "negsoft-noforce", [&] { MSSMNoFV_onshell m = mssm_negsoft(false); push(r, calculate_amu_1loop(m)); push(r, calculate_amu_2loop(m)); push(r, calculate_amu_1loop_non_tan_beta_resummed(m)); });
       for (int force = 0; force < 2; force++)
          sub(r, force ? "thdm-tachyon-force" : "thdm-tachyon", [&] { thdm::Gauge_basis b; b.yukawa_type = thdm::Yukawa_type::type_2;
